@@ -410,7 +410,18 @@ def h_schedule_n(c, v, operand):
     if len(names) < len(c["tasks"]) and operand:
         return U
     n_in = sum(1 for n in names if any(task_in_interval(v, n, lo, hi) for lo, hi in c["intervals"]))
-    return tv(_count(c["kind"], n_in, c["n"]))
+    ok = _count(c["kind"], n_in, c["n"])
+    if not ok:
+        return F
+    # a task that is not inside any interval but overlaps one: the documentation only speaks of tasks
+    # 'in' the intervals; the repository's tests expect such tasks to stay clear of them.  Left open.
+    for n in names:
+        if any(task_in_interval(v, n, lo, hi) for lo, hi in c["intervals"]):
+            continue
+        s, e = v.start(n), v.end(n)
+        if any((s < hi and e > lo) or (s == e and lo < s < hi) for lo, hi in c["intervals"]):
+            return U
+    return T
 
 
 def h_force_schedule(c, v, operand):
